@@ -22,22 +22,34 @@ one INNER per-mode function per distinct argument E.
 
 Accepted grammar (everything else -> TranslateError naming file, line and construct):
   module level   the known imports, `logger = ...`, the three unit-constant assignments (exact text),
-                 class ElasticModulus: pass, the functions average_over_modes / clear_gamma_point (exact text),
-                 the two classes; no other binding of a name the translation relies on
+                 class ElasticModulus: pass, the functions average_over_modes / clear_gamma_point (accepted
+                 spellings W_FORMS, compared up to renaming of locals), further undecorated functions (inlined when
+                 called, see below), the two classes; no other binding of a name the translation relies on
   class body     docstring and `def`s only; known members need @LazyProperty/@property; __init__, the accessors
-                 v_array/t_array/freq_array/q_weights and the method average_over_modes are template-checked;
-                 further @LazyProperty/@property members are *helpers*: translated on demand and inlined;
+                 v_array/t_array/freq_array/q_weights and the method average_over_modes are template-checked (W_FORMS);
+                 further @LazyProperty/@property members are *helper properties*, further undecorated methods
+                 *helper methods*: translated on demand and inlined;
                  inheritance: a member not overridden in the OffDiagonal class is the Longitudinal one, and
                  every method is translated once per *instance* class (self.X resolves through the MRO)
   statements     docstring;  NAME = expr  (single assignment, fresh non-reserved name, value not a bare name);
-                 NAME[numpy.where(self.t_array == 0), :] = 0  on a fresh, not yet used local of axes (T,V)
-                 (-> `if is0 t then zero else ...` guard);
-                 return expr  (last statement)
-  expressions    int constants (integral floats), + - * /, ** with constant exponent 0..4, unary - +,
-                 numpy.exp(e), numpy.prod(self.e, axis=0), tuples, TUPLE[int], ARRAY[nax|:, ...] with exactly one
-                 `:` per axis, the attribute chains listed in ATOMS, self.<known property>, self.<helper>,
-                 h_div_k, the two units.Quantity(...).to(...).magnitude expressions (exact text), local names,
-                 self.average_over_modes(e) (grid-level properties only, not nested)
+                 NAME[numpy.where(self.t_array == 0), :] = 0   or   NAME[self.t_array == 0, :] = 0
+                 on a fresh, not yet used local of axes (T,V)  (-> `if is0 t then zero else ...` guard);
+                 HELPER(args) as a statement (see below);  return expr  (last statement)
+  expressions    int constants, float literals that are short exact decimals p/q (0.5 -> 1/2; the literal is the
+                 same double as the accepted integer division p / q), + - * /, ** with constant exponent 0..4,
+                 unary - +, numpy.exp(e), numpy.square / negative / add / subtract / multiply / divide (positional
+                 arguments only: no out= / where=), numpy.prod(self.e, axis=0), tuples, TUPLE[int],
+                 ARRAY[nax|:, ...] with exactly one `:` per axis, the attribute chains listed in ATOMS,
+                 self.<known property>, self.<helper property>, h_div_k, the two
+                 units.Quantity(...).to(...).magnitude expressions (exact text), local names,
+                 self.average_over_modes(e) (grid-level properties only, not nested), HELPER(args)
+  helpers        HELPER = an undecorated module-level function bound exactly once, or self.<undecorated method>
+                 (MRO of the instance class); positional arguments only, no defaults, no recursion; its body must be
+                 inside this same grammar (so its only possible side effect is the T = 0 guard), module-level
+                 functions may not mention self.  In expression position arguments are passed by value (the callee
+                 cannot assign into them) and the body ends in `return expr`; in statement position the body has no
+                 return and an argument that is a bare local name is passed by reference: a guard on the parameter
+                 is a guard on the caller's local, under the same fresh / not-yet-used conditions.
 """
 import ast
 
@@ -149,19 +161,69 @@ GRID = {
 }
 INSTANCE_ATTRS = {"e", "calculator", "qha_calculator", "nv", "np", "nq", "na"}
 
-# template-checked members ("wiring")
-W_INIT = ["self.e = e", "self.calculator = calculator", "self.qha_calculator = self.calculator.qha_calculator",
-          "self.nv = self.calculator.nv", "self.np = self.calculator.np", "self.nq = self.calculator.nq",
-          "self.na = self.calculator.na"]
-W_ACCESS = {"v_array": ["return self.calculator.v_array"], "t_array": ["return self.calculator.t_array"],
-            "freq_array": ["return self.calculator.freq_array"],
-            "q_weights": ["return numpy.array([weight for coord, weight in self.calculator.qha_input.weights])"]}
-W_AVG_METHOD = ["return average_over_modes(amount, self.q_weights)"]
-W_AVG = ["dims = len(amount.shape)", "_amount = amount.copy()", "clear_gamma_point(_amount)",
-         "return numpy.average(numpy.average(_amount, axis=dims - 1), weights=q_weights, axis=dims - 2)"]
-W_CLEAR = ["dims = len(mat.shape)", "indices = tuple([slice(None)] * (dims - 2) + [0, slice(0, 3)])",
-           "mat[indices] = 0"]
-W_CALC = ["self.freq_array = interp_freq", "self.mode_gamma = [vdr_dv, gamma_i, gamma_i ** 2]"]
+# template-checked members ("wiring"): every accepted spelling is a complete `def`; a member is compared
+# with them after ALPHA-NORMALISATION (parameters and locally bound names -> _v0, _v1, ... in binding order), so
+# renaming a local / a comprehension variable is accepted, anything else is not.
+W_FORMS = {
+    "__init__": ["""
+def __init__(self, calculator, e):
+    self.e = e
+    self.calculator = calculator
+    self.qha_calculator = self.calculator.qha_calculator
+    self.nv = self.calculator.nv
+    self.np = self.calculator.np
+    self.nq = self.calculator.nq
+    self.na = self.calculator.na
+"""],
+    "v_array": ["def v_array(self):\n    return self.calculator.v_array\n"],
+    "t_array": ["def t_array(self):\n    return self.calculator.t_array\n"],
+    "freq_array": ["def freq_array(self):\n    return self.calculator.freq_array\n"],
+    "q_weights": ["def q_weights(self):\n"
+                  "    return numpy.array([weight for coord, weight in self.calculator.qha_input.weights])\n"],
+    "average_over_modes (method)": ["def average_over_modes(self, amount):\n"
+                                    "    return average_over_modes(amount, self.q_weights)\n"],
+    # mean over the last axis (modes), then weighted mean over the then-last axis (q-points), of a copy whose
+    # [..., 0, 0:3] entries are zeroed.  For an array of ndim d >= 2:  axis=d-1 is axis=-1, and after the
+    # first reduction axis=d-2 is the last axis again, i.e. axis=-1: the four spellings denote the same function.
+    "average_over_modes": ["""
+def average_over_modes(amount, q_weights):
+    dims = len(amount.shape)
+    _amount = amount.copy()
+    clear_gamma_point(_amount)
+    return numpy.average(numpy.average(_amount, axis=dims - 1), weights=q_weights, axis=dims - 2)
+""", """
+def average_over_modes(amount, q_weights):
+    dims = len(amount.shape)
+    _amount = amount.copy()
+    clear_gamma_point(_amount)
+    inner = numpy.average(_amount, axis=dims - 1)
+    return numpy.average(inner, weights=q_weights, axis=dims - 2)
+""", """
+def average_over_modes(amount, q_weights):
+    _amount = amount.copy()
+    clear_gamma_point(_amount)
+    return numpy.average(numpy.average(_amount, axis=-1), weights=q_weights, axis=-1)
+""", """
+def average_over_modes(amount, q_weights):
+    _amount = amount.copy()
+    clear_gamma_point(_amount)
+    inner = numpy.average(_amount, axis=-1)
+    return numpy.average(inner, weights=q_weights, axis=-1)
+"""],
+    # tuple([slice(None)] * (d - 2) + [0, slice(0, 3)]) is the index [..., 0, 0:3] for ndim d >= 2
+    "clear_gamma_point": ["""
+def clear_gamma_point(mat):
+    dims = len(mat.shape)
+    indices = tuple([slice(None)] * (dims - 2) + [0, slice(0, 3)])
+    mat[indices] = 0
+""", """
+def clear_gamma_point(mat):
+    mat[..., 0, 0:3] = 0
+"""],
+}
+W_CALC_FREQ = "self.freq_array = interp_freq"
+W_CALC_MG = ["self.mode_gamma = [vdr_dv, gamma_i, gamma_i ** 2]", "self.mode_gamma = [vdr_dv, gamma_i, gamma_i * gamma_i]",
+             "self.mode_gamma = [vdr_dv, gamma_i, numpy.square(gamma_i)]"]
 W_MG_RETURN = "return (interp_freq, gamma_i, vdr_dv)"
 
 
@@ -178,6 +240,28 @@ def is_doc(s):
 
 def norm_body(fn):
     return [ast.unparse(s) for s in fn.body if not is_doc(s)]
+
+
+def alpha_body(fn):
+    """(number of parameters, statements) with parameters and locally bound names renamed canonically"""
+    import copy
+    fn = copy.deepcopy(fn)
+    order = [a.arg for a in fn.args.args]
+    stores = sorted((n.lineno, n.col_offset, n.id) for n in ast.walk(fn)
+                    if isinstance(n, ast.Name) and isinstance(n.ctx, ast.Store))
+    for _, _, i in stores:
+        if i not in order:
+            order.append(i)
+    ren = {n: "_v%d" % k for k, n in enumerate(order)}
+    for n in ast.walk(fn):
+        if isinstance(n, ast.Name) and n.id in ren:
+            n.id = ren[n.id]
+        elif isinstance(n, ast.arg) and n.arg in ren:
+            n.arg = ren[n.arg]
+    return len(fn.args.args), [ast.unparse(x) for x in fn.body if not is_doc(x)]
+
+
+W_ALPHA = {k: [alpha_body(ast.parse(t.strip() + "\n").body[0]) for t in v] for k, v in W_FORMS.items()}
 
 
 def arg_names(fn):
@@ -313,6 +397,12 @@ class Translator:
             if len(ns) != 1 or not isinstance(ns[0], ast.Assign) or ast.unparse(ns[0].value) != want:
                 raise TranslateError("%s: unit constant `%s` is not the accepted expression `%s` (found: %s)"
                                      % (SRC, name, want, [ast.unparse(x) for x in ns]))
+        # module-level functions (candidates for inlining): bound exactly once, by an undecorated def
+        self.top = {n: ns[0] for n, ns in bound.items()
+                    if len(ns) == 1 and isinstance(ns[0], ast.FunctionDef) and not ns[0].decorator_list}
+        for name in ("average_over_modes", "clear_gamma_point"):
+            if name not in self.top:
+                raise TranslateError("%s: `%s` must be one undecorated module-level function" % (SRC, name))
         for name in ("average_over_modes", "clear_gamma_point", "ElasticModulus", LONG, OFFD):
             if len(bound.get(name, [])) != 1:
                 raise TranslateError("%s: `%s` must be defined exactly once at module level" % (SRC, name))
@@ -348,35 +438,29 @@ class Translator:
                 return self.classes[c][name], c
         return None, None
 
-    def expect_body(self, fn, want, what, args=None, decos=None):
-        got = norm_body(fn)
-        if got != want:
-            raise TranslateError("%s:%d: %s differs from the accepted form\n--- got\n%s\n--- accepted\n%s"
-                                 % (SRC, fn.lineno, what, "\n".join(got), "\n".join(want)))
-        if args is not None and arg_names(fn) != args:
-            bail(fn, "%s: parameters must be %s" % (what, args))
-        if decos is not None and deco_names(fn) not in decos:
+    def expect_form(self, fn, key, what, decos):
+        arg_names(fn)                      # no defaults / *args / keyword-only parameters
+        got = alpha_body(fn)
+        if got not in W_ALPHA[key]:
+            raise TranslateError("%s:%d: %s differs from the accepted form(s) (compared up to renaming of locals)"
+                                 "\n--- got\n%s\n--- accepted\n%s"
+                                 % (SRC, fn.lineno, what, "\n".join(norm_body(fn)),
+                                    "\n--- or\n".join(t.strip() for t in W_FORMS[key])))
+        if deco_names(fn) not in decos:
             bail(fn, "%s: decorators must be one of %s" % (what, decos))
 
     def check_wiring(self):
         """template checks of everything the pointwise reading relies on but does not translate"""
-        top = {n.name: n for n in self.mod.body if isinstance(n, ast.FunctionDef)}
-        self.expect_body(top["average_over_modes"], W_AVG, "function average_over_modes", ["amount", "q_weights"], [[]])
-        self.expect_body(top["clear_gamma_point"], W_CLEAR, "function clear_gamma_point", ["mat"], [[]])
+        self.expect_form(self.top["average_over_modes"], "average_over_modes", "function average_over_modes", [[]])
+        self.expect_form(self.top["clear_gamma_point"], "clear_gamma_point", "function clear_gamma_point", [[]])
         for cls in (LONG, OFFD):
-            fn, _ = self.resolve(cls, "__init__")
-            if fn is None:
-                raise TranslateError("%s: %s has no __init__" % (SRC, cls))
-            self.expect_body(fn, W_INIT, "%s.__init__" % cls, ["self", "calculator", "e"], [[]])
-            for name, want in W_ACCESS.items():
+            for name, key, decos in [("__init__", "__init__", [[]])] + \
+                    [(n, n, [["property"], ["LazyProperty"]]) for n in ("v_array", "t_array", "freq_array", "q_weights")] + \
+                    [("average_over_modes", "average_over_modes (method)", [[]])]:
                 fn, _ = self.resolve(cls, name)
                 if fn is None:
                     raise TranslateError("%s: %s has no member %s" % (SRC, cls, name))
-                self.expect_body(fn, want, "%s.%s" % (cls, name), ["self"], [["property"], ["LazyProperty"]])
-            fn, _ = self.resolve(cls, "average_over_modes")
-            if fn is None:
-                raise TranslateError("%s: %s has no method average_over_modes" % (SRC, cls))
-            self.expect_body(fn, W_AVG_METHOD, "%s.average_over_modes" % cls, ["self", "amount"], [[]])
+                self.expect_form(fn, key, "%s.%s" % (cls, name), decos)
         if self.calc_src is not None:
             self.check_calculator()
 
@@ -391,11 +475,18 @@ class Translator:
         ok = len(body) == 3 and isinstance(body[0], ast.Assign) and len(body[0].targets) == 1 and \
             ast.unparse(body[0].targets[0]) in ("(interp_freq, gamma_i, vdr_dv)", "interp_freq, gamma_i, vdr_dv") and \
             isinstance(body[0].value, ast.Call) and ast.unparse(body[0].value.func) == "interpolate_modes" and \
-            [ast.unparse(s) for s in body[1:]] == W_CALC
+            ast.unparse(body[1]) == W_CALC_FREQ and ast.unparse(body[2]) in W_CALC_MG
+        if ok and "numpy" in ast.unparse(body[2]):
+            nb = [n for n in cm.body if (isinstance(n, (ast.Import, ast.ImportFrom)) and
+                                         any((a.asname or a.name.split(".")[0]) == "numpy" for a in n.names)) or
+                  (isinstance(n, (ast.FunctionDef, ast.ClassDef)) and n.name == "numpy") or
+                  (isinstance(n, ast.Assign) and any(isinstance(t, ast.Name) and t.id == "numpy" for t in n.targets))]
+            ok = len(nb) == 1 and ast.unparse(nb[0]) == "import numpy"
         if not ok:
             raise TranslateError("%s:%d: Calculator._interpolate_modes differs from the accepted form "
-                                 "(freq, gamma_i, vdr_dv = interpolate_modes(...); %s)\n--- got\n%s"
-                                 % (SRC_CALC, fns[0].lineno, "; ".join(W_CALC), "\n".join(ast.unparse(s) for s in body)))
+                                 "(freq, gamma_i, vdr_dv = interpolate_modes(...); %s; %s)\n--- got\n%s"
+                                 % (SRC_CALC, fns[0].lineno, W_CALC_FREQ, " | ".join(W_CALC_MG),
+                                    "\n".join(ast.unparse(s) for s in body)))
         imp = [n for n in cm.body if isinstance(n, ast.ImportFrom) and any(a.name == "interpolate_modes" for a in n.names)]
         if len(imp) != 1 or ast.unparse(imp[0]) != "from .mode_gamma import interpolate_modes":
             raise TranslateError("%s: interpolate_modes is not imported from .mode_gamma" % SRC_CALC)
@@ -414,9 +505,18 @@ class Translator:
         """st: dict(cls, env, level, in_avg, grid (name of grid-level property or None))"""
         if isinstance(e, ast.Constant):
             v = e.value
-            if type(v) is int or (type(v) is float and v == int(v) and abs(v) < 2 ** 31):
-                return Arr((), ("int", int(v)), fresh=True)
-            bail(e, "unsupported constant (only integers)")
+            if type(v) is int:
+                return Arr((), ("int", v), fresh=True)
+            if type(v) is float and v == v and abs(v) != float("inf"):
+                # a float literal is the correctly rounded value of its decimal p/q - the same double that the
+                # (already accepted) integer division p / q yields; checked, not assumed
+                from decimal import Decimal
+                from fractions import Fraction
+                fr = Fraction(Decimal(repr(v)))
+                p, q = fr.numerator, fr.denominator
+                if abs(p) < 2 ** 53 and q <= 10 ** 9 and p / q == v:
+                    return Arr((), ("int", p) if q == 1 else ("div", ("int", p), ("int", q)), fresh=True)
+            bail(e, "unsupported constant (only integers and short exact decimals)")
         if isinstance(e, ast.Name):
             if e.id in st["env"]:
                 st["env"].setdefault("@reads", set()).add(e.id)
@@ -469,6 +569,8 @@ class Translator:
 
     def attribute(self, e, st):
         src = ast.unparse(e)
+        if src.startswith("self.") and not st.get("has_self", True):
+            bail(e, "`self` inside a module-level function")
         if src in CONST_EXPR:
             return Arr((), ("const", CONST_EXPR[src]))
         if src in ATOMS:
@@ -484,6 +586,68 @@ class Translator:
         if isinstance(e.value, ast.Name) and e.value.id == "self":
             return self.self_member(e, e.attr, st)
         bail(e, "unknown attribute chain")
+
+    def callable_of(self, call, st):
+        """the FunctionDef a call in the source refers to, if it is one the translator may inline:
+        an undecorated module-level function (bound once) or an undecorated method found through the MRO"""
+        f = call.func
+        if isinstance(f, ast.Name):
+            if f.id in st["env"]:
+                bail(call, "call of a local name")
+            if f.id in ("average_over_modes", "clear_gamma_point") or f.id not in self.top:
+                bail(call, "call outside the translator's grammar")
+            return self.top[f.id], False, "function %s" % f.id
+        if isinstance(f, ast.Attribute) and isinstance(f.value, ast.Name) and f.value.id == "self":
+            if not st.get("has_self", True):
+                bail(call, "`self` inside a module-level function")
+            if f.attr in POINTWISE or f.attr in GRID or f.attr in INSTANCE_ATTRS or f.attr == "average_over_modes":
+                bail(call, "call outside the translator's grammar")
+            fn, owner = self.resolve(st["cls"], f.attr)
+            if fn is None:
+                bail(call, "unknown method of self")
+            if fn.decorator_list:
+                bail(call, "call of a decorated member")
+            return fn, True, "%s.%s (defined in %s)" % (PREFIX[st["cls"]], f.attr, owner)
+        bail(call, "call outside the translator's grammar")
+
+    def inline(self, call, st, proc):
+        """inline a helper function / method whose body is inside the grammar.
+        proc=False: expression position; arguments are passed by value (the callee may not assign into them) and
+                    the body must end in `return expr`.
+        proc=True : statement position `f(a, ...)`; an argument that is a bare local name is passed by REFERENCE:
+                    the only side effect the grammar has - the T = 0 guard - then acts on the caller's local,
+                    under the same conditions (fresh, not yet used) as if it were written in place.  The body
+                    must not return a value."""
+        fn, is_method, what = self.callable_of(call, st)
+        params = arg_names(fn)
+        if is_method:
+            if not params or params[0] != "self":
+                bail(fn, "method without self")
+            params = params[1:]
+        if call.keywords or len(call.args) != len(params) or any(isinstance(a, ast.Starred) for a in call.args):
+            bail(call, "helper call must pass exactly the positional parameters")
+        key = ("inline", st["cls"] if is_method else None, fn.name)
+        if key in self.stack:
+            bail(call, "recursive helper")
+        env2, alias = {}, {}
+        for p_, a in zip(params, call.args):
+            if p_ in RESERVED or p_ in env2:
+                bail(fn, "parameter name %s not supported" % p_)
+            if proc and isinstance(a, ast.Name) and a.id in st["env"]:
+                if any(al[1] == a.id for al in alias.values()):
+                    bail(call, "the same local passed twice")
+                env2[p_] = st["env"][a.id]
+                alias[p_] = (st["env"], a.id)
+            else:
+                env2[p_] = unfresh(self.expr(a, st))
+        env2["@alias"] = alias
+        self.stack.append(key)
+        try:
+            v = self.body(fn, dict(st, env=env2, helper=True, has_self=is_method), proc=proc)
+        finally:
+            self.stack.pop()
+        self.inlined_helpers.add("%s, line %d" % (what, fn.lineno))
+        return None if proc else unfresh(v)
 
     def self_member(self, e, name, st):
         cls = st["cls"]
@@ -553,6 +717,17 @@ class Translator:
                 bail(e, "numpy.exp takes one positional argument")
             a = self.arr(e.args[0], st)
             return Arr(a.sig, ("exp", a.term), fresh=True)
+        if f in ("numpy.square", "numpy.negative"):
+            if len(e.args) != 1 or e.keywords:
+                bail(e, "%s takes one positional argument (no out=/where=)" % f)
+            a = self.arr(e.args[0], st)
+            return Arr(a.sig, ("mul", a.term, a.term) if f == "numpy.square" else ("neg", a.term), fresh=True)
+        if f in ("numpy.add", "numpy.subtract", "numpy.multiply", "numpy.divide", "numpy.true_divide"):
+            if len(e.args) != 2 or e.keywords:
+                bail(e, "%s takes two positional arguments (no out=/where=)" % f)
+            a, b = self.arr(e.args[0], st), self.arr(e.args[1], st)
+            op = {"add": "add", "subtract": "sub", "multiply": "mul", "divide": "div", "true_divide": "div"}[f[6:]]
+            return Arr(broadcast(e, a.sig, b.sig), (op, a.term, b.term), fresh=True)
         if f == "numpy.prod":
             if len(e.args) != 1 or len(e.keywords) != 1 or e.keywords[0].arg != "axis" or \
                     ast.unparse(e.keywords[0].value) != "0":
@@ -573,7 +748,7 @@ class Translator:
             if not st.get("grid"):
                 bail(e, "average_over_modes outside a grid-level property")
             fn, _ = self.resolve(st["cls"], "average_over_modes")
-            if fn is None or norm_body(fn) != W_AVG_METHOD:
+            if fn is None or alpha_body(fn) not in W_ALPHA["average_over_modes (method)"] or fn.decorator_list:
                 bail(e, "self.average_over_modes is not the accepted wrapper")
             a = self.arr(e.args[0], dict(st, level="M", in_avg=True))
             if a.sig[-2:] != ("q", "m"):
@@ -581,14 +756,18 @@ class Translator:
             if contains(a.term, ("guard", "opaque")):
                 bail(e, "unsupported term inside average_over_modes")
             return Arr(a.sig[:-2], ("avg", a.term), fresh=True)
-        bail(e, "call outside the translator's grammar")
+        if f.startswith("numpy.") or f.startswith("units."):
+            bail(e, "call outside the translator's grammar")
+        return self.inline(e, st, proc=False)
 
     # ---- statements ----------------------------------------------------------------------------
-    def body(self, fn, st):
+    def body(self, fn, st, proc=False):
         stmts = [s for s in fn.body if not is_doc(s)]
         env = st["env"]
         for i, s in enumerate(stmts):
             if isinstance(s, ast.Return):
+                if proc:
+                    bail(s, "a helper called as a statement must not return a value")
                 if i != len(stmts) - 1:
                     bail(s, "return is not the last statement")
                 if s.value is None:
@@ -611,7 +790,12 @@ class Translator:
                     self.guard(s, tg, st)
                     continue
                 bail(s, "unsupported assignment target")
+            if isinstance(s, ast.Expr) and isinstance(s.value, ast.Call):
+                self.inline(s.value, st, proc=True)
+                continue
             bail(s, "unsupported statement form")
+        if proc:
+            return None
         bail(fn, "no return statement in")
 
     def guard(self, s, tg, st):
@@ -622,7 +806,7 @@ class Translator:
         a = env[tg.value.id]
         if not (isinstance(a, Arr) and a.fresh):
             bail(s, "in-place assignment to an array that is not a fresh local (it may alias a cached property)")
-        if tg.value.id in env.get("@reads", ()):
+        if was_read(env, tg.value.id):
             bail(s, "in-place assignment to a local that was already used (a view or alias of it may exist)")
         if a.sig != TV:
             bail(s, "the T = 0 guard is only understood on an array of axes (T,V), not %s" % fmt_sig(a.sig))
@@ -630,19 +814,23 @@ class Translator:
         ok = isinstance(sl, ast.Tuple) and len(sl.elts) == 2 and isinstance(sl.elts[1], ast.Slice) and \
             sl.elts[1].lower is None and sl.elts[1].upper is None and sl.elts[1].step is None
         w = sl.elts[0] if ok else None
-        ok = ok and isinstance(w, ast.Call) and ast.unparse(w.func) == "numpy.where" and len(w.args) == 1 and \
-            not w.keywords and isinstance(w.args[0], ast.Compare) and len(w.args[0].ops) == 1 and \
-            isinstance(w.args[0].ops[0], ast.Eq)
+        # row selector: numpy.where(mask) (integer row indices) or the boolean mask itself - both select exactly
+        # the rows of axis 0 (T) where the mask holds
+        if ok and isinstance(w, ast.Call) and ast.unparse(w.func) == "numpy.where" and len(w.args) == 1 and \
+                not w.keywords:
+            w = w.args[0]
+        ok = ok and isinstance(w, ast.Compare) and len(w.ops) == 1 and isinstance(w.ops[0], ast.Eq)
         if ok:
-            c = w.args[0]
+            c = w
             lhs = self.arr(c.left, st)
             r = c.comparators[0]
             ok = lhs.sig == ("T",) and lhs.term == ("atom", "t") and isinstance(r, ast.Constant) and \
                 type(r.value) in (int, float) and r.value == 0
         ok = ok and isinstance(s.value, ast.Constant) and type(s.value.value) in (int, float) and s.value.value == 0
         if not ok:
-            bail(s, "in-place assignment other than `NAME[numpy.where(self.t_array == 0), :] = 0`")
-        env[tg.value.id] = Arr(a.sig, ("guard", a.term), fresh=True)
+            bail(s, "in-place assignment other than `NAME[numpy.where(self.t_array == 0), :] = 0` / "
+                    "`NAME[self.t_array == 0, :] = 0`")
+        set_local(env, tg.value.id, Arr(a.sig, ("guard", a.term), fresh=True))
 
     # ---- properties ----------------------------------------------------------------------------
     def member_fn(self, cls, name):
@@ -723,6 +911,20 @@ class Translator:
             res = ex
         self.memo[key] = res
         return res
+
+
+def was_read(env, name):
+    if name in env.get("@reads", ()):
+        return True
+    al = env.get("@alias", {}).get(name)
+    return bool(al) and was_read(al[0], al[1])
+
+
+def set_local(env, name, val):
+    env[name] = val
+    al = env.get("@alias", {}).get(name)
+    if al:
+        set_local(al[0], al[1], val)
 
 
 def unfresh(v):
